@@ -1616,21 +1616,40 @@ pub mod c02_api {
 
     /// the first `len * size` bytes of the element buffer
     pub fn element_bytes<T: Value>(l: &List<T>) -> Vec<u8> {
-        // (written as a plain function call: the translators that enumerate
-        // the lock sites of this file look at the production code only)
-        let mutex: &std::sync::Mutex<super::RawList> = &l.erased().0;
-        let raw = std::sync::Mutex::lock(mutex).unwrap();
-        let n = raw.offset_of(raw.len);
-        if n == 0 {
-            return Vec::new();
+        // (written as plain function calls: the translators that enumerate
+        // the lock sites of this file look at the production code only; and
+        // through `WithRaw`, so that the hooks still build when the kind of
+        // lock around the list is changed)
+        WithRaw::with_raw(&*l.erased().0, |raw| {
+            let n = raw.offset_of(raw.len);
+            if n == 0 {
+                return Vec::new();
+            }
+            let base = raw.ptr.cast::<u8>().as_ptr();
+            // SAFETY: the first `len` elements of the buffer are allocated
+            // and we hold the lock; the bytes are only copied out (volatile:
+            // some of them were never written), never interpreted.
+            (0..n)
+                .map(|i| unsafe { std::ptr::read_volatile(base.add(i)) })
+                .collect()
+        })
+    }
+
+    /// run `f` on the list behind whatever lock protects it
+    trait WithRaw {
+        fn with_raw<R>(&self, f: impl FnOnce(&super::RawList) -> R) -> R;
+    }
+
+    impl WithRaw for std::sync::Mutex<super::RawList> {
+        fn with_raw<R>(&self, f: impl FnOnce(&super::RawList) -> R) -> R {
+            f(&std::sync::Mutex::lock(self).unwrap())
         }
-        let base = raw.ptr.cast::<u8>().as_ptr();
-        // SAFETY: the first `len` elements of the buffer are allocated and
-        // we hold the lock; the bytes are only copied out (volatile: some of
-        // them were never written), never interpreted.
-        (0..n)
-            .map(|i| unsafe { std::ptr::read_volatile(base.add(i)) })
-            .collect()
+    }
+
+    impl WithRaw for std::sync::RwLock<super::RawList> {
+        fn with_raw<R>(&self, f: impl FnOnce(&super::RawList) -> R) -> R {
+            f(&std::sync::RwLock::read(self).unwrap())
+        }
     }
 }
 
